@@ -7,6 +7,8 @@
                                                      that does not build the capped lockup schedule)
       x/vesting/types/schedule.go                    ReadSchedule, ReadPastPeriodCount
       x/staking/keeper/msg_server.go                 validateDelegationAmountNotUnvested (Delegate, CreateValidator)
+      precompiles/staking/tx.go                      CreateValidator (which message server the precompile hands
+                                                     MsgCreateValidator to: Haqq's wrapper, as the router and authz do)
       x/vesting/keeper/msg_server.go                 transferClawback, addGrant (tracking reset; the merged schedule
                                                      itself is an input, see below), ConvertIntoVestingAccount incl.
                                                      delegateVestedCoins (the Stake option: stakingKeeper.Delegate
@@ -390,6 +392,56 @@ Definition lkx_run_g (gd : lk_guard) (ops : list lkx_op) (s : lkx_state) : lkx_s
   fold_left (fun s o => fst (lkx_step_g gd s o)) ops s.
 Definition lkx_run : list lkx_op -> lkx_state -> lkx_state := lkx_run_g LkGuardSchedule.
 
+(** ---- validator creation: the self-bond is a delegation ----
+    MsgCreateValidator{Value = x} reaches the staking module over three routes:
+
+      LkRouteMsg         the message in a Cosmos transaction: the application's message router
+      LkRouteAuthz       the message inside authz MsgExec (a generic grant on its type URL): the same router
+      LkRoutePrecompile  precompiles/staking/tx.go CreateValidator in an Ethereum transaction signed by the
+                         account (caller = signer): the precompile builds its own message server
+
+    and on every route the code executes it on Haqq's wrapper x/staking/keeper.msgServer.CreateValidator
+    ([LkCvHaqq]): validateDelegationAmountNotUnvested(delegator, Value) first, then the Cosmos SDK's CreateValidator,
+    whose bank part is Keeper.Delegate(subtractAccount = true) = DelegateCoins + TrackDelegation — exactly
+    [lk_delegate].  The SDK's own message server ([LkCvSdk]) has no notion of clawback vesting: the same without the
+    guard = [lk_stake]; no route of the code uses it, it is kept for the refutation.  [srv] says which server a route
+    uses.  A plain account has no guard on either server.
+
+    Not modelled: the staking module's own refusals (a validator of this operator / with this consensus key exists
+    already, commission and description checks, Value below MinSelfDelegation); the harness issues the step only
+    for an account that is not a validator yet, with parameters the staking module accepts. *)
+Inductive lk_route := LkRouteMsg | LkRouteAuthz | LkRoutePrecompile.
+Inductive lk_cv_server := LkCvHaqq | LkCvSdk.
+
+(** the code: Haqq's wrapper on every route *)
+Definition lk_cv_code : lk_route -> lk_cv_server := fun _ => LkCvHaqq.
+
+Definition lkx_create_validator (srv : lk_route -> lk_cv_server) (s : lkx_state) (r : lk_route) (x : Z) : lkx_state * N :=
+  let c := lx_s s in
+  let res := if lx_vesting s
+             then match srv r with LkCvHaqq => lk_delegate c x | LkCvSdk => lk_stake c x end
+             else lk_plain_step c (LkDelegate x) in
+  (mklkx (fst res) (lx_vesting s) (lx_funder s), snd res).
+
+(** histories with validator creation: every operation of [lkx_op], and MsgCreateValidator over a route *)
+Inductive lky_op :=
+| LyOp (o : lkx_op)
+| LyCreateValidator (r : lk_route) (x : Z).
+
+Definition lky_step_g (srv : lk_route -> lk_cv_server) (s : lkx_state) (o : lky_op) : lkx_state * N :=
+  match o with
+  | LyOp o => lkx_step s o
+  | LyCreateValidator r x => lkx_create_validator srv s r x
+  end.
+Definition lky_step : lkx_state -> lky_op -> lkx_state * N := lky_step_g lk_cv_code.
+Definition lky_run_g (srv : lk_route -> lk_cv_server) (ops : list lky_op) (s : lkx_state) : lkx_state :=
+  fold_left (fun s o => fst (lky_step_g srv s o)) ops s.
+Definition lky_run : list lky_op -> lkx_state -> lkx_state := lky_run_g lk_cv_code.
+
+(** the same history with every validator creation written as the ordinary delegation of its self-bond *)
+Definition lky_lower (o : lky_op) : lkx_op :=
+  match o with LyOp o => o | LyCreateValidator _ x => LxBase (LkDelegate x) 0%N end.
+
 (** ---- correspondence with the harness: two denominations (0 = bond) ---- *)
 Inductive lk_op2 :=
 | L2Receive (x0 x1 : Z)
@@ -406,7 +458,8 @@ Inductive lk_op2 :=
 | L2ConvertInto (signer : N) (merge : bool) (g0 g1 start' end' : Z) (l0 l1 v0 v1 : list lk_period)
 | L2UpdateFunder (signer new : N)
 | L2ConvertIntoStake (signer : N) (merge : bool) (g0 g1 start' end' : Z) (l0 l1 v0 v1 : list lk_period)
-                     (gstart : Z) (gv0 : list lk_period).   (* only the bond denomination is staked *)
+                     (gstart : Z) (gv0 : list lk_period)    (* only the bond denomination is staked *)
+| L2CreateValidator (r : lk_route) (x : Z).                  (* MsgCreateValidator{Value = x aISLM} over route r *)
 
 Definition lk_pair : Type := (lkx_state * lkx_state)%type.
 
@@ -445,6 +498,7 @@ Definition lk_step2 (s : lk_pair) (o : lk_op2) : lk_pair * bool :=
   | L2UpdateFunder sg nw => lk_both s (lkx_step s0 (LxUpdateFunder sg nw)) (lkx_step s1 (LxUpdateFunder sg nw))
   | L2ConvertIntoStake sg m g0 g1 st e l0 l1 v0 v1 gst gv0 =>
       lk_both s (lkx_step s0 (LxConvertIntoStake sg m g0 st e l0 v0 gst gv0)) (lkx_step s1 (LxConvertInto sg m g1 st e l1 v1))
+  | L2CreateValidator r x => lk_both s (lkx_create_validator lk_cv_code s0 r x) (s1, LK_OK)
   end.
 
 Record lk_obs := mklkobs {
